@@ -20,7 +20,7 @@ RULE = ('fault histories of up to 70 operations on a full in-process client (har
 ASSUMPTIONS = [
     'driver events are well formed (ASCII strings, counter ids inside the counters buffer, existing log file, exclusive-publication answers '
     'with registration id = correlation id, known message type ids - C14); error code 4 (channel endpoint) is not generated',
-    'the command ring has room, strings fit the 512-byte scratch buffer (C13); callbacks do not call back into the client',
+    'the command ring either has room or (SetRingFull) refuses every command - its capacity arithmetic is C06\'s; strings fit the 512-byte scratch buffer (C13); callbacks do not call back into the client',
     'the clock stays below 2^62 and above the linger time-out, so that now_ms - linger does not underflow (C11/C12)',
     'one thread drives the client: real scheduling of the agent thread against API threads and lock-order questions are outside the model',
 ]
